@@ -35,9 +35,9 @@ func (c *CriteriaConcealment) Spec_Apply(
 	props *model.BiasProps,
 	listener *model.BiasListener,
 ) *model.BiasedResult {
-	parsedProps := *parseProps(props)
-	bounding := criteria_bounding.FromParams(props)
-	resParams, addedCriterion := c.addCriterion(props, parsedProps, original, current, listener, bounding)
+	parsedProps := *Spec_parseProps(props)
+	bounding := criteria_bounding.Spec_FromParams(props)
+	resParams, addedCriterion := c.Spec_addCriterion(props, parsedProps, original, current, listener, bounding)
 	return &model.BiasedResult{
 		DMP: resParams,
 		Props: CriteriaConcealmentResult{
@@ -48,7 +48,7 @@ func (c *CriteriaConcealment) Spec_Apply(
 
 func Spec_parseProps(props *model.BiasProps) *CriteriaConcealmentParams {
 	parsedProps := CriteriaConcealmentParams{NewCriterionScaling: 1}
-	utils.DecodeToStruct(*props, &parsedProps)
+	utils.Spec_DecodeToStruct(*props, &parsedProps)
 	if parsedProps.NewCriterionScaling == 0 {
 		panic("`concealedCriterionScaling` cannot be 0")
 	}
